@@ -87,7 +87,7 @@ pub fn run(plan: &C19Plan, sched: &Sched) -> Outcome {
     let plan2 = plan.clone();
     let mut handle: Option<ClientHandle> = None;
     let hslot: *mut Option<ClientHandle> = &mut handle;
-    let (recs, cres, attempts, locals, missing, digest, events, counters, horizon) = run_world(seed, &net, move || async move {
+    let (recs, cres, attempts, locals, arrivals, missing, digest, events, counters, horizon) = run_world(seed, &net, move || async move {
         let plan = plan2;
         // the target behind the healthy server: echo
         let target = TcpListener::bind("127.0.0.1:9000").await.expect("bind target");
@@ -111,10 +111,12 @@ pub fn run(plan: &C19Plan, sched: &Sched) -> Outcome {
             }
         });
         let local_results: Rc<RefCell<Vec<(usize, Duration, String)>>> = Default::default();
+        let arrivals: Rc<RefCell<Vec<(usize, Duration)>>> = Default::default();
         let hs_to = Duration::from_secs(plan.hs_to_s.max(1));
         let patience = ms(plan.max_iv.max(200)) + hs_to + Duration::from_secs(plan.ch_to_s) + Duration::from_secs(30);
         let plan3 = plan.clone();
         let lr = local_results.clone();
+        let arr = arrivals.clone();
         let ls = tokio::task::LocalSet::new();
         let out = ls
             .run_until(async move {
@@ -125,10 +127,11 @@ pub fn run(plan: &C19Plan, sched: &Sched) -> Outcome {
                         if l.phase != phase {
                             continue;
                         }
-                        let (l, lr) = (l.clone(), lr.clone());
+                        let (l, lr, arr) = (l.clone(), lr.clone(), arr.clone());
                         tokio::task::spawn_local(async move {
                             tokio::time::sleep(ms(l.delay_ms)).await;
                             let t = now();
+                            arr.borrow_mut().push((i, t));
                             let r = async {
                                 let mut c = TcpStream::connect("127.0.0.1:7000").await.map_err(|e| format!("local listener refused the connection: {e}"))?;
                                 let data: Vec<u8> = (0..l.nbytes as u64).map(|j| pbyte(i, 0, j)).collect();
@@ -276,21 +279,22 @@ pub fn run(plan: &C19Plan, sched: &Sched) -> Outcome {
         let (digest, events) = world_digest();
         let counters = world_counters();
         let locals = local_results.borrow().clone();
+        let arrivals = arrivals.borrow().clone();
         let horizon = now();
         dump_log();
         // SAFETY: written once, read after the runtime is gone
         unsafe { *hslot = Some(client) };
-        (recs, cres, attempts, locals, missing, digest, events, counters, horizon)
+        (recs, cres, attempts, locals, arrivals, missing, digest, events, counters, horizon)
     });
     if let Some(h) = handle.take() {
         // SAFETY: the runtime was dropped inside `run_world`
         unsafe { h.reclaim() };
     }
-    judge(plan, recs, cres, attempts, locals, missing, digest, events, counters, horizon)
+    judge(plan, recs, cres, attempts, locals, arrivals, missing, digest, events, counters, horizon)
 }
 
 #[allow(clippy::too_many_arguments)]
-fn judge(plan: &C19Plan, recs: Vec<Rec>, cres: Option<String>, attempts: Vec<(Duration, bool, u64)>, locals: Vec<(usize, Duration, String)>, missing: Option<usize>, digest: u64, events: u64, counters: Vec<(String, u64)>, horizon: Duration) -> Outcome {
+fn judge(plan: &C19Plan, recs: Vec<Rec>, cres: Option<String>, attempts: Vec<(Duration, bool, u64)>, locals: Vec<(usize, Duration, String)>, arrivals: Vec<(usize, Duration)>, missing: Option<usize>, digest: u64, events: u64, counters: Vec<(String, u64)>, horizon: Duration) -> Outcome {
     let mut o = Outcome { digest: digest ^ events, steps: events, sim_ms: horizon.as_millis() as u64, ..Default::default() };
     for (k, v) in counters {
         if k.starts_with("tcp-re") {
@@ -304,12 +308,34 @@ fn judge(plan: &C19Plan, recs: Vec<Rec>, cres: Option<String>, attempts: Vec<(Du
         return o;
     }
     let mut c = 0u32;
+    let mut served_upto = 0usize;
     let mut gave_up = false;
     let mut ended_nonretryable = false;
     for (i, r) in recs.iter().enumerate() {
         if attempts.get(i).map(|a| a.0) != Some(r.at) {
             o.violate("HARNESS:bookkeeping", format!("attempt {i} bookkeeping; {desc}"));
             return o;
+        }
+        // a connection that completed the handshake but ignores stream requests is lost exactly
+        // channel_timeout after the first request became outstanding on it: at once if one was
+        // parked or queued from earlier, else when the first local connection of this phase arrived
+        if plan.script[i] == Beh::Ignore {
+            let queued_before = arrivals.iter().any(|(li, t)| *t <= r.at && plan.locals.get(*li).is_some_and(|l| l.phase >= served_upto));
+            let first_here = arrivals.iter().filter(|(_, t)| *t > r.at).map(|(_, t)| *t).min();
+            let start = if queued_before { Some(r.at) } else { first_here };
+            if let Some(st) = start {
+                let want = st + Duration::from_secs(plan.ch_to_s);
+                match r.fail {
+                    Some(ft) if ft == want => o.probe("stream-request-timeout-checked", 1),
+                    Some(ft) if first_here.is_some_and(|f| f + Duration::from_secs(plan.ch_to_s) == ft) && !queued_before => o.probe("stream-request-timeout-checked", 1),
+                    other => {
+                        o.violate("C19:stream-request-timeout", format!("phase {i}: the server completed the handshake at {:?} and then ignored everything; a stream request was outstanding from {st:?}, so the connection should have been given up at {want:?} (channel_timeout {} s), observed: {other:?}; {desc}", r.at, plan.ch_to_s));
+                    }
+                }
+            }
+        } else if r.completed {
+            // a live multiplexor served whatever was queued
+            served_upto = i + 1;
         }
         let Some(ft) = r.fail else { break };
         if plan.script[i] == Beh::NonRetryable {
